@@ -128,7 +128,11 @@ func drawCfg(t *core.Tape, opt core.Options) RunCfg {
 	c.Filters = opt.Int("faults", 1) > 0 && t.Chance(1, 2)
 	c.Txs = t.Chance(1, 2)
 	c.TxPct = []int{3, 10, 30}[t.Draw(3)]
+	c.Director = opt.Int("faults", 1) > 0 && c.NVal >= 3 && t.Chance(1, 3)
+	emphDirector := t.Chance(2, 3)
+	emphStrat := t.Draw(3)
 	if opt.Mode == "crash" {
+		c.Director = false
 		c.NVal = []int{1, 4, 4, 2}[t.Draw(4)]
 		c.Stakes = c.Stakes[:0]
 		for i := 0; i < c.NVal; i++ {
@@ -148,6 +152,7 @@ func drawCfg(t *core.Tape, opt core.Options) RunCfg {
 		}
 		c.TimeoutMs = []int{200, 100}[t.Draw(2)]
 		c.Galaxias = false
+		c.WalHeadLimit = []int{0, 1500, 4000, 12000}[t.Weighted(2, 2, 2, 1)]
 	}
 	// per-property emphasis (after all draws, so the tape layout is the same for every property)
 	switch opt.Property {
@@ -183,9 +188,17 @@ func drawCfg(t *core.Tape, opt core.Options) RunCfg {
 		if len(c.ByzStrat) > 0 {
 			c.ByzStrat[0] = "equivocate"
 		}
-	case "C01", "C03":
+	case "C01", "C03", "C04":
 		if c.NVal >= 4 && opt.Int("faults", 1) > 0 {
-			c.Filters = true
+			if opt.Property != "C04" {
+				c.Filters = true
+			}
+			if emphDirector {
+				c.Director = true
+			}
+			if len(c.ByzStrat) > 0 && emphStrat > 0 {
+				c.ByzStrat[0] = []string{"", "lock-bait", "late-proposer"}[emphStrat]
+			}
 		}
 	}
 	return c
@@ -197,6 +210,7 @@ func (engine) Run(t *testing.T, tape *core.Tape, opt core.Options) (res *core.Ru
 		until: map[string]time.Duration{}, retries: map[string]int{}, cut: map[[2]int]bool{},
 		blocks: map[string]*knownBlock{}, blocksByH: map[uint64][]*knownBlock{}, forged: map[string]string{}, bogusParts: map[int]int{}, learnedSaved: map[int]int{}, userNonce: map[int]uint64{}}
 	s.cfg = drawCfg(tape, opt)
+	s.holdDst = -1
 	s.txUser = tape.Draw(4)
 	if opt.Verbose && os.Getenv("VERIF_LOGS") != "" {
 		kit.LogSink = func(lvl log.Lvl, msg string, ctx []interface{}) {
@@ -323,6 +337,13 @@ func (s *Sim) run() {
 	s.faultsOn = true
 	target := uint64(c.Heights)
 	goal := func() bool {
+		// the adversarial phase also ends when anybody is far ahead (a lagging node is the
+		// synchronous suffix's business; heights stay well below 50, see phase2)
+		for _, n := range s.liveNodes() {
+			if s.heightOf(n) > target+12 || s.heightOf(n) >= 38 {
+				return true
+			}
+		}
 		for _, n := range s.liveNodes() {
 			if s.heightOf(n) <= target {
 				return false
@@ -377,18 +398,18 @@ func (s *Sim) phase2() {
 	s.trace("PHASE2 start, max height %d", maxH)
 	p2start := s.now()
 	goal := func() bool {
-		for _, n := range s.liveNodes() {
-			if s.heightOf(n) < maxH+3 {
-				return false
-			}
-		}
-		// C19: evidence a correct node already held when the network started to behave must get committed.
 		// Heights are capped below 50: every 50th block the product fetches a blacklist over HTTP.
 		for _, n := range s.liveNodes() {
 			if s.heightOf(n) >= 44 {
 				return true
 			}
 		}
+		for _, n := range s.liveNodes() {
+			if s.heightOf(n) < maxH+3 {
+				return false
+			}
+		}
+		// C19: evidence a correct node already held when the network started to behave must get committed.
 		return len(s.mon.evidenceOutstanding(p2start)) == 0
 	}
 	// generous bound: 20 x rotation (<= number of validators x small power ratio) rounds of the longest round time
